@@ -27,7 +27,7 @@ CLAIMS = {
         ref='DESIGN.md section 5 C02',
         text='Static. Decided clauses: precedence ladder wiring and operator arrays; left fold in parse_binary; char->OperationType->arithmetic tables with operand order; '
              'guarded division (the returned term tabulated over finite, +-inf, NaN and overflowing quotients); the two suffix tables agree with 1000^k; implicit + / leading 0 insertion and its guard; every peek..return Ok(non-None) path in src/syntax consumes the token; '
-             'stage order of tokinize. G9 a detached prefix sign negates (tabulated on positive, negative and fractional literals), variables / percentages / money get exactly one PrefixUnary wrapper, every numeric DataItem::unary negates on Minus and keeps the value on Plus. Not decided: independence from spacing over all strings, exact f64 results.'),
+             'stage order of tokinize. G9 a detached prefix sign negates (tabulated on positive, negative and fractional literals), variables / percentages / money get exactly one PrefixUnary wrapper, every numeric DataItem::unary negates on Minus and keeps the value on Plus. G10 token_cleaner drops Text tokens from position 0 or from behind the first "=" and from nowhere else (a magnitude suffix in front of a parenthesis is dropped like any other); G11 per suffix letter the Number token ends behind the suffix (evaluated from the value term of the reader), or no unit spelling equals the letter; G5 is judged on the evaluated value term of both literal readers (match, const table or helper alike). Not decided: independence from spacing over all strings, exact f64 results.'),
     'C03': dict(
         technique='dominance / who-may-write / use-def rules over MIR; path-following abstract interpretation of the substitution search over order types (E6c)',
         ref='DESIGN.md section 5 C03',
@@ -40,17 +40,17 @@ CLAIMS = {
         ref='DESIGN.md section 5 C04',
         text='Static. Decided clauses: evaluation entry points take &self; every write to an interior-mutable cell reachable from the configuration type has a receiver derived from the '
              'evaluating tokenizer\'s own token list; insertions into that list are fresh Rc::new values; no mutable static; ambient callees in reach are limited to the UTC clock; execute allocates a fresh Session; '
-             'every body assigning Session.text_parts also resets Session.position. Not decided: equality of results across histories as such.'),
+             'every body assigning Session.text_parts also resets Session.position. V4 (shared with C03) the key a binding is stored under and the key an assignment looks it up under are built alike, so a re-used session keeps one binding per name. Not decided: equality of results across histories as such.'),
     'C05': dict(
         technique='value-DAG extraction + rational-function normalisation of the percent formulas; pattern/field-name cross-check against config.json',
         ref='DESIGN.md section 5 C05',
         text='Static. Decided clauses: the six formulas as identities over Q(X,p,A,B) (modulo field identities, so algebraic rewrites stay silent); money result iff a currency was found, same value in both arms; '
-             'rule name -> function -> keyword routing per language; every field a rule function reads is bound by every pattern of that rule with an accepted type; both percent spellings. Not decided: f64 rounding.'),
+             'rule name -> function -> keyword routing per language; every field a rule function reads is bound by every pattern of that rule with an accepted type; both percent spellings. Q7 the phrase table is closed: every rule that consumes a PERCENT field is one of the phrases of the statement, a checked pass-through or provably inert (its function requires a field no pattern binds); Q8 no pattern names two fields alike. Not decided: f64 rounding.'),
     'C06': dict(
         technique='value-DAG extraction of the conversion formula (two siblings), who-may-write on the rate table, decision table of MoneyItem::calculate, data cross-checks',
         ref='DESIGN.md section 5 C06',
         text='Static. Decided clauses: convert_money and MoneyItem::convert_currency compute amount / rate(from) * rate(to); currency_rate is written only by load_from_json and update_currency with the resolved key and the rate parameter; '
-             'arithmetic table of MoneyItem::calculate (currency kept, money/money -> number, operand conversion into self\'s currency); money regex groups; read_currency alias-then-code order; alias/rate keys exist. The scale-suffix tables of the number and money readers agree with 1000^k for every suffix (shared with C02 G5). Not decided: f64 exactness.'),
+             'arithmetic table of MoneyItem::calculate (currency kept, money/money -> number, operand conversion into self\'s currency); money regex groups; read_currency alias-then-code order; alias/rate keys exist. The scale-suffix tables of the number and money readers agree with 1000^k for every suffix (shared with C02 G5). M3 also: on every path under the MONEY arm the right operand of + - * / is convert_currency(self, config, other); M6 no pattern names two fields alike. Not decided: f64 exactness.'),
     'C07': dict(
         technique='string-provenance rule on lengths used as indices, argument-wiring and decision-table extraction (format templates decoded from MIR constants), dependence analysis of float->int casts',
         ref='DESIGN.md section 5 C07',
@@ -67,12 +67,12 @@ CLAIMS = {
         ref='DESIGN.md section 5 C09',
         text='Static. Decided clauses: D1 the date DateItem::calculate hands to its final +/- step, tabulated from the result term of the function over Add/Sub x year/month step x every (month, count) cell, equal calendar arithmetic with the day unchanged (failure classes invalid-month / wrong-year / wrong-month are separate findings); D2 small_date builds the date with the checked constructor from the fields named year / month / day, rejects None, defaults the year to the current year, and every date pattern binds day and month with accepted types; '
              'D3 A to B is the larger minus the smaller of the two stored values, for dates and for times; D4 today / tomorrow / yesterday are today +0 / +1 / -1 days and every language names them; D5 every literal parser iterates over all matches; D6 month table numbering (index+1, stored at number-1, emitted by the parser, printed from month-1); D7 the duration is split by YEAR and MONTH with exact remainders and the remainder is applied with the operation\'s own operator. '
-             'L2 every configured month spelling is recognised by the regexes built at load time (shared with C19). Not decided: leap days, day-of-month overflow (31 Jan + 1 month), 30-day months versus calendar months for counts given in days.'),
+             'L2 every configured month spelling is recognised by the regexes built at load time (shared with C19). D8 no date pattern names two fields alike. Not decided: leap days, day-of-month overflow (31 Jan + 1 month), 30-day months versus calendar months for counts given in days.'),
     'C10': dict(
         technique='evaluated constants, gamma decision tables, CFG chain shape, data tables',
         ref='DESIGN.md section 5 C10',
         text='Static. Decided clauses: MINUTE..YEAR constants; duration_parse table (unit -> constructor/factor); combine_durations sums every field, calculate table; the print chain divides and reduces by the same constant in strictly descending order (sum-preserving by construction); '
-             'singular/plural tables; as_duration flooring table with matching divisor and constructor. DU7 the pattern scan never restarts a pattern on the token that failed it (scan index only 0 / +1, never borrowed), which is what makes `D1 D2 as unit` floor the whole duration although as_duration is tried before combine_durations. Not decided: overflow for huge counts (C01), spelling recognition.'),
+             'singular/plural tables; as_duration flooring table with matching divisor and constructor. DU7 the pattern scan never restarts a pattern on the token that failed it (scan index only 0 / +1, never borrowed), which is what makes `D1 D2 as unit` floor the whole duration although as_duration is tried before combine_durations. DU8 no duration pattern names two fields alike (a repeated name silently drops a matched duration). Not decided: overflow for huge counts (C01), spelling recognition.'),
     'C11': dict(
         technique='call-chain signatures of the zone conversions (with the resolved time-zone type of every chrono call), unit rule at every FixedOffset constructor, finite-domain tabulation of the GMT offset formula and of as_time, who-may-call rule for the host zone, gamma tables',
         ref='DESIGN.md section 5 C11',
@@ -84,7 +84,7 @@ CLAIMS = {
         technique='exact rational arithmetic over the unit tables of config.json; gamma-expanded value DAGs of calculate_unit/convert/calculate',
         ref='DESIGN.md section 5 C12',
         text='Static. Decided clauses: K1 adjacent steps are inverse (exact rationals); K2 every step and bridge equals the definition quoted in the property; K5 all code strings are positive linear maps (K1+K5 => linear, invertible, transitive over the reals); '
-             'K4 walk shape of calculate_unit (which code, which direction, step 1) and bridge-code selection; K3 bridges connect one kind and the family searched after a bridge depends on the bridge record; K6 arithmetic table; K7 literal patterns. K6 also requires that every operand entering the arithmetic under the DYNAMIC_TYPE arm is the result of convert(..); K4b the result of calculate_unit is the accumulated amount itself and convert does no arithmetic of its own. Not decided: f64 rounding; separator dependence (C08).'),
+             'K4 walk shape of calculate_unit (which code, which direction, step 1) and bridge-code selection; K3 bridges connect one kind and the family searched after a bridge depends on the bridge record; K6 arithmetic table; K7 literal patterns. K6 also requires that every operand entering the arithmetic under the DYNAMIC_TYPE arm is the result of convert(..); K4b the result of calculate_unit is the accumulated amount itself and convert does no arithmetic of its own. Z10 no pattern names two fields alike. K9 no unit spelling is a currency code or alias that a money regex accepts (the money reader runs first); K10 no pattern names two fields alike. Not decided: f64 rounding; separator dependence (C08).'),
     'C13': dict(
         technique='table agreement between reader (regex classes, radix constants) and printer (format traits, cast width) from MIR constants and regex-syntax',
         ref='DESIGN.md section 5 C13',
@@ -93,14 +93,14 @@ CLAIMS = {
     'C14': dict(
         technique='use-def wiring of the epoch API pair; cast-width rule',
         ref='DESIGN.md section 5 C14',
-        text='Static. Decided clauses: from_unixtime builds the UTC value with from_timestamp(N as i64, 0), to_unixtime reads .timestamp() of the stored UTC value or of midnight, with no offset arithmetic in between; Raw numbers print with a 64-bit cast; patterns bind the fields read. Not decided: calendar correctness of chrono.'),
+        text='Static. Decided clauses: from_unixtime builds the UTC value with from_timestamp(N as i64, 0), to_unixtime reads .timestamp() of the stored UTC value or of midnight, with no offset arithmetic in between; Raw numbers print with a 64-bit cast; patterns bind the fields read. The word table of B3 is evaluated per target word from the result term; B6 no pattern names two fields alike. Z3 (shared with C11) the zone table and the GMT+/-h[:mm] formula that give "N to date" its zone; X6 no pattern names two fields alike. Not decided: calendar correctness of chrono.'),
     'C15': dict(
         technique='reader/printer table agreement: printed shapes (format strings of config.json, format templates and literals found as MIR constants, symbol placement table) checked for membership in the reader\'s tables and in the regex-syntax HIR of the reader\'s regexes, per kind and language',
         ref='DESIGN.md section 5 C15',
         text='Static, table level. Decided clauses: A1 every word of a duration format of language L is a duration word of L of the same kind and in L\'s duration word group, L configures the reading and combining rules, and the duration printer emits counts, words and blanks only; A2 each date format of L has the token-class sequence and field names of one of L\'s date patterns and month names come from L\'s month table; '
              'A3 HH:MM:SS is in the language of a time regex, zone names are in the zone regex, L has the rule that reads a time followed by a zone; A4 printed number / percent samples in every separator configuration of the quantifier are in the reader\'s regexes, the percent sign position agrees; '
              'A5 for the currencies nameable through the alias table the printed symbol is inside the CURRENCY class of a money regex with the same placement and resolves back to the same currency; A6 the word of every unit format is a word its parse patterns accept, number first; A7 based-integer prefix / digit alphabet and regex order (shared with C13). '
-             'A8 (shared) the date reader takes the year exactly as written (C09 D2) and the number printer cuts its rendering with lengths measured on that rendering (C07 N1). Not decided: that the re-read value prints identically (depends on rounding, C07, and on regex competition between families).'),
+             'A8 (shared) the date reader takes the year exactly as written (C09 D2) and the number printer cuts its rendering with lengths measured on that rendering (C07 N1). N2 (shared with C07) every printer hands format_number the configured separators the readers normalise with. Not decided: that the re-read value prints identically (depends on rounding, C07, and on regex competition between families).'),
     'C16': dict(
         technique='origin-scoped comparison rule (case normalisation of both operands), table-case data rules, argument wiring of the noise parsers, per-stage producer-order rule over the parser registries, finite enumeration of interval orderings for the claim predicate',
         ref='DESIGN.md section 5 C16',
@@ -117,11 +117,11 @@ CLAIMS = {
         technique='write-shape rules on the rule list / type table, sibling agreement of the three rewrite arms, panic obligations fed by user data',
         ref='DESIGN.md section 5 C18',
         text='Static. Decided clauses: add_rule appends exactly one API entry and fails only on unknown language without a write; delete_rule removes the first API entry of that name and nothing else; no other writer of the rule list outside setup; the three rewrite arms follow one protocol; field names reach the rule unchanged; duplicate family/item paths return false before any write; '
-             'user-supplied patterns/indices cannot panic the evaluator. Not decided: user RuleTrait code; histories as such.'),
+             'user-supplied patterns/indices cannot panic the evaluator. Y5 registrations are history-free: the calculator has no state besides its configuration and every stored token list is, on every path, the result of token_infos on a session created for that one pattern; Y6 the three-part field regex accepts letters of any case, digits and non-ASCII letters in NAME and EXTRA. Not decided: user RuleTrait code; histories as such.'),
     'C19': dict(
         technique='per-language table parity on config.json + wiring of the session language to the printers',
         ref='DESIGN.md section 5 C19',
-        text='Static, table level. Decided clauses: every language has all months (long+short), all duration kinds, constant kinds 1..11, every referenced word group; every configured month spelling is recognisable; printers look up the session language and pass it on; word-free rules have identical patterns in all languages. Not decided: value equality of translated lines.'),
+        text='Static, table level. Decided clauses: every language has all months (long+short), all duration kinds, constant kinds 1..11, every referenced word group; every configured month spelling is recognisable; printers look up the session language and pass it on; word-free rules have identical patterns in all languages. L7 every alias key, compiled between two word boundaries, is bounded by them (no top-level alternation). Not decided: value equality of translated lines.'),
 }
 
 
